@@ -107,6 +107,12 @@ def run_C06(ctx, R):
     nfa.rule_num_bytes(ctx, R, E.NR)
     da.rule_dispatch(ctx, R, E.NR, E.BR, rules={"VALID-PROP", "CW-NB"})
     da.rule_build_entry(ctx, R, E.NR, E.BR, rules={"VAL-IDX", "B-MOVE"})
+    # "haystack[start..end] is one of the registered patterns": no phantom transitions (unique bases, CHECK discipline)
+    da.rule_placement(ctx, R, E.NR, E.BR, rules={"DA-EDGE", "DA-BASE", "B-BASE", "KNOB-SAN"})
+    da.rule_find_base(ctx, R, E.NR, E.BR)
+    da.rule_sanitiser(ctx, R, E.NR, E.BR)
+    # "before and after a serialization round trip"
+    ser.rule_ser(ctx, R)
 
 
 def run_C07(ctx, R):
@@ -183,6 +189,11 @@ def run_C12(ctx, R):
 def run_C13(ctx, R):
     E = Env(ctx, R)
     misc.rule_term_loops(ctx, R)
+    # a leftmost automaton (DEAD fail links) inside a standard scan loop would spin: the kind assertion of every
+    # entry point and the MatchKind image decoding are part of the termination argument
+    lazy.rule_lazy_ctor(ctx, R, rules={"LAZY-CTOR"})
+    with ctx.only({"SER-MK"}):
+        ser.rule_ser(ctx, R)
     nfa.rule_outputs_pass(ctx, R, E.NR)
     nfa.rule_fail_passes(ctx, R, E.NR)
     search.rule_trans(ctx, R)
@@ -205,8 +216,12 @@ def run_C14(ctx, R):
 def run_C15(ctx, R):
     E = Env(ctx, R)
     misc.rule_stat(ctx, R)
-    da.rule_placement(ctx, R, E.NR, E.BR, rules={"DA-EDGE"})
+    da.rule_placement(ctx, R, E.NR, E.BR, rules={"DA-EDGE", "DA-BASE", "KNOB-SAN"})
     nfa.rule_fail_passes(ctx, R, E.NR)
+    # STAT-REACH: a counted state stays reachable only if its CHECK is never overwritten and its base is unique
+    da.rule_sanitiser(ctx, R, E.NR, E.BR)
+    da.rule_find_base(ctx, R, E.NR, E.BR)
+    da.rule_array_growth(ctx, R, E.NR, E.BR)
     nfa.rule_add(ctx, R, E.NR, rules={"STAT-NS", "STAT-SHADOW"})
     da.rule_build_entry(ctx, R, E.NR, E.BR, rules={"STAT-NS"})
 
@@ -215,7 +230,12 @@ def run_C16(ctx, R):
     cli.rule_cli_args(ctx, R)
     cli.rule_cli_guard(ctx, R)
     cli.rule_cli_pats(ctx, R)
-    search.rule_iter_standard(ctx, R, kinds=("find", "nosuffix"), rules={"ITER-OUT", "ITER-HEAD", "LAZY-END", "ITER-STATE"})
+    search.rule_iter_standard(ctx, R, kinds=("find", "nosuffix"), rules={"ITER-OUT", "ITER-HEAD", "LAZY-END", "ITER-STATE", "ITER-LABEL", "ITER-ONE"})
+    # the line filter / interval union rest on the standard automaton being right (C02/C05's construction clauses)
+    E = Env(ctx, R)
+    search.rule_trans(ctx, R)
+    nfa.rule_outputs_pass(ctx, R, E.NR)
+    nfa.rule_fail_passes(ctx, R, E.NR)
 
 
 def run_NFA(ctx, R):
